@@ -86,11 +86,11 @@ Proof.
 Qed.
 
 (* the two sessions of the model on these instances, run by the kernel *)
-Definition ex_sessions (pE : float) (extra : nat) : option (list str * list str * list pt) :=
-  match interrupted ex_up 4 extra pop_first_max (ex_g pE) 1 2 cempty with
+Definition ex_sessions (chk : bool) (pE : float) (extra : nat) : option (list str * list str * list pt) :=
+  match interrupted ex_up 4 extra chk pop_first_max (ex_g pE) 1 2 cempty with
   | Saved out f =>
       match resumed_session 4 extra false true pop_first_max (ex_g pE) f 10 cempty 10 with
-      | Some r => Some (out, resumed_out ex_up (ex_g pE) r, map (fun it => ipt it) (resumed_pops r))
+      | Some r => Some (out, resumed_out ex_up true (ex_g pE) r, map (fun it => ipt it) (resumed_pops r))
       | None => None
       end
   | _ => None
@@ -100,7 +100,7 @@ Definition ex_L : list str := level_strings (Gex 10) 2%Z.
 
 (* not tied: the remainder of the level, then exactly the rest of the run *)
 Example ex_not_tied_sessions e : e <= 1 ->
-  ex_sessions 0x1p-1%float e =
+  ex_sessions true 0x1p-1%float e =
   Some ([[49%N]; [50%N]] ++ firstn 2 ex_L,
         skipn 2 ex_L ++ skipn (2 + length ex_L) (session_out ex_up pop_first_max (ex_g 0x1p-1%float)),
         [[(1, 1)]; [(0, 1)]; [(2, 0)]]).
@@ -109,8 +109,18 @@ Proof. intros H. destruct e as [|[|e]]; [vm_compute; reflexivity | vm_compute; r
 (* tied: after the remainder the level's own pre-terminal (0,0) is popped again
    and all 5 strings of the level are printed once more *)
 Example ex_tied_level_regenerated e : e <= 1 ->
-  ex_sessions 1%float e =
+  ex_sessions true 1%float e =
   Some ([[49%N]; [50%N]] ++ firstn 2 ex_L,
         skipn 2 ex_L ++ ex_L ++ skipn (2 + length ex_L) (session_out ex_up pop_first_max (ex_g 1%float)),
         [[(0, 0)]; [(2, 0)]; [(1, 1)]; [(0, 1)]]).
+Proof. intros H. destruct e as [|[|e]]; [vm_compute; reflexivity | vm_compute; reflexivity | exfalso; clear -H; lia]. Qed.
+
+(* the quit check in front of the pop, on the NOT tied instance: the saved
+   probability is the level's own (0.25) and the level's pre-terminal (0,0) is
+   popped again although nothing ties with it *)
+Example ex_check_before_pop_regenerates e : e <= 1 ->
+  ex_sessions false 0x1p-1%float e =
+  Some ([[49%N]; [50%N]] ++ firstn 2 ex_L,
+        skipn 2 ex_L ++ ex_L ++ skipn (2 + length ex_L) (session_out ex_up pop_first_max (ex_g 0x1p-1%float)),
+        [[(0, 0)]; [(1, 1)]; [(0, 1)]; [(2, 0)]]).
 Proof. intros H. destruct e as [|[|e]]; [vm_compute; reflexivity | vm_compute; reflexivity | exfalso; clear -H; lia]. Qed.
